@@ -549,3 +549,112 @@ def _check_timeout_partition(spec, I, O, bad, check_md, ar):
                         {'batch': _v(e[4]), 'first_member_at': members[0][1], 'timeout': T, 'emitted_at': e[1]})
             if check_md and _mdids(e[5]) != [m for a in members for m in _mdids(a[6])]:
                 bad('metadata', nid, {'batch': _v(e[4])})
+
+
+# ---------------------------------------------------------------------------
+# C05, asynchronous family: counters at the bounded settle
+# ---------------------------------------------------------------------------
+
+def expected_holders(case, ar):
+    """{id(dict): count} held legitimately once everything has settled, and the set of nodes contributing"""
+    prog = case['prog']
+    ins, outs = by_node(ar.log)
+    hold, by = {}, {}
+    for spec in prog['nodes']:
+        nid, op = spec['id'], spec['op']
+        I = ins.get(nid, [])
+        if op in ('source', 'sink') or op in ASYNC_OPS and op != 'latest' or is_async_partition(spec):
+            continue
+        if op == 'latest':
+            continue        # a lossy node: what it delivered or dropped has left the pipeline
+        ups = list(spec.get('ups', []))
+        mn, mups = M.standalone(spec, len(ups))
+        try:
+            for e in I:
+                mn.update(e[5], mups[ups.index(e[4])], e[6] if isinstance(e[6], list) else [])
+        except Exception:
+            continue
+        for d in mn.holds():
+            hold[id(d)] = hold.get(id(d), 0) + 1
+            by.setdefault(id(d), set()).add(op)
+    return hold, by
+
+
+def check_c05(case, counters, sets):
+    ar = run_async(case)
+    if ar.stop in ('iter-cap', 'vt-cap'):
+        return None, []
+    log = ar.log
+    viols, seen = [], set()
+
+    def add(key, what):
+        if key not in seen:
+            seen.add(key)
+            viols.append({'key': key, 'what': what, 'case': case})
+    # elements whose handling failed are excluded (C04/C16 say they must never signal)
+    failed = set()
+    specs = {s['id']: s for s in case['prog']['nodes']}
+    ma_in = {}
+    for e in log.ev:
+        if e[2] == 'IN' and specs.get(e[3], {}).get('op') == 'map_async':
+            ma_in.setdefault(e[3], []).append(e)
+    for e in log.ev:
+        if e[2] == 'FAILED':
+            failed.update(e[6][0])
+        elif e[2] == 'FN_FAILED':
+            arr = ma_in.get(e[3], [])
+            if e[5] < len(arr) and isinstance(arr[e[5]][6], list):
+                failed.update(id(d) for d in arr[e[5]][6])
+    for i in ar.emit_exc:
+        failed.update(id(d) for d in ar.mds.get(i, []))
+    if ar.pending_emits or not ar.producers_done:
+        return None, []          # not quiescent: C03's business
+    hold, by = expected_holders(case, ar)
+    n_cmp = n_held = 0
+    for i, ref in ar.refs.items():
+        d = ar.mds[i][0]
+        if id(d) in failed:
+            continue
+        e_node = ar.entries[i][0]
+        exp = hold.get(id(d), 0)
+        n_cmp += 1
+        n_held += 1 if exp else 0
+
+        def blame():
+            net = {}
+            for ev in log.ev:
+                if ev[2] == 'REF' and ev[3] == ref.uid and ev[4] in ('retain', 'release'):
+                    cls = str(ev[6]).split('.')[0]
+                    net[cls] = net.get(cls, 0) + (ev[7] if ev[4] == 'retain' else -ev[7])
+            return {k: v for k, v in net.items() if v}
+        if ref.count != exp:
+            b = blame()
+            modelled = {}
+            for op_ in by.get(id(d), set()):
+                modelled[op_] = modelled.get(op_, 0) + 1
+            cls = sorted(c for c in set(b) | set(modelled)
+                         if (c in b) != (c in modelled) or (c in b and c not in ('latest',) and False)) or sorted(b)
+            add('C05:balance@' + '+'.join(cls),
+                'after settle: counter %s is %d, reference semantics has %d holder(s) %s; net retains by class %s'
+                % (ref.uid, ref.count, exp, sorted(by.get(id(d), [])), b))
+        elif exp == 0 and ref.triggers == 0 and ref.max_count > 0:
+            add('C05:no-signal-at-zero', 'counter %s is 0 with no holder left but no completion signal was given' % ref.uid)
+        elif exp > 0 and ref.triggers > 0:
+            add('C05:signal-while-held', 'counter %s signalled while %d holder(s) remain' % (ref.uid, exp))
+        if ref.negative:
+            add('C05:negative@%s' % ref.negative[0].split('.')[0], 'counter %s became negative in %s' % (ref.uid, ref.negative[0]))
+        if ref.retain_after_trigger:
+            add('C05:rise-after-zero@%s' % ref.retain_after_trigger[0].split('.')[0],
+                'counter %s retained again after the completion signal, by %s' % (ref.uid, ref.retain_after_trigger[0]))
+    counters['counter_vs_holders_comparisons'] = counters.get('counter_vs_holders_comparisons', 0) + n_cmp
+    counters['counters_expected_zero'] = counters.get('counters_expected_zero', 0) + (n_cmp - n_held)
+    counters['counters_expected_held'] = counters.get('counters_expected_held', 0) + n_held
+    counters['async_runs_settled'] = counters.get('async_runs_settled', 0) + 1
+    counters['ref_events_observed'] = counters.get('ref_events_observed', 0) + sum(1 for e in log.ev if e[2] == 'REF')
+    for s in case['prog']['nodes']:
+        sets.setdefault('node_types_seen', set()).add(s['op'] + ('+timeout' if is_async_partition(s) else ''))
+    sets.setdefault('interleaving_signatures', set()).add(signature(log))
+    ar.n_cmp, ar.n_held = n_cmp, max(n_held, 1 if n_cmp else 0)
+    ar.quiescent = [(len(ar.refs), {r.uid: (r.count, r.triggers, hold.get(id(ar.mds[i][0]), 0)) for i, r in ar.refs.items()})]
+    ar.calls = True
+    return ar, viols
